@@ -28,7 +28,8 @@ for f in sorted(glob.glob(os.path.join(V, "seeded", "*", "meta.json"))):
     before = m.get("ran_before_strengthening")
     if m.get("neutralised_by"):
         print("| `{}` | {} | {} | {} | {} | not applicable any more: neutralised by {} (its demo passes with the change applied) |".format(
-            m["id"], m["breaks"], m.get("what_changed", ""), m.get("needs", ""), "(led to D9)", m["neutralised_by"]))
+            m["id"], m["breaks"], m.get("what_changed", ""), m.get("needs", ""),
+            "(led to D9)" if "D9" in m["neutralised_by"] else "caught when delivered (C14 and C13 exit 1, before the repair)", m["neutralised_by"]))
         continue
     print("| `{}` | {} | {} | {} | {} | {} |".format(m["id"], m["breaks"], m.get("what_changed", ""), m.get("needs", ""),
           fmt(before) if before else "(same)", fmt(m["ran"])))
